@@ -226,7 +226,10 @@ def do_replay(mod, pid, path):
     blob = json.load(open(path))
     obs = mod.obligations(blob.get("tier", "quick"))
     h = obs[blob["obligation_index"]]
-    ok, info = H.replay(h, blob["inputs"])
+    if hasattr(h, "replay"):
+        ok, info = h.replay(blob["inputs"])
+    else:
+        ok, info = H.replay(h, blob["inputs"])
     print("replay of %s on the real code: %s -- %s" % (path, "REPRODUCED" if ok else "not reproduced", info))
     if ok:
         print("VIOLATION property=%s replay=%s" % (pid, path))
